@@ -182,7 +182,7 @@ def gen_ecf(rng):
     return v, 'ecf-generic'
 
 
-SHAPES = ['flat', 'single', 'grid', 'grid1', 'list', 'tuple', 'strided', 'fortran', 'empty']
+SHAPES = ['flat', 'single', 'grid', 'grid1', 'list', 'tuple', 'strided', 'fortran', 'empty', 'gridF', 'planesT']
 
 
 def shaped(rows, kind):
@@ -205,6 +205,13 @@ def shaped(rows, kind):
         return big[::2], (lambda r: numpy.asarray(r).reshape((-1, 3))), (n, 3)
     if kind == 'fortran':
         return numpy.asfortranarray(a), (lambda r: numpy.asarray(r).reshape((-1, 3))), (n, 3)
+    if kind in ('gridF', 'planesT') and n > 0:
+        # memory layouts other than C order with two leading axes: a Fortran-ordered copy, and the transposed view of a (3, m, k)
+        # stack of coordinate planes (how a caller holding x / y / z planes hands them over); the point at [i, j] is row i * m + j
+        k = 2 if n % 2 == 0 else 1
+        g = a.reshape((k, n // k, 3))
+        arg = numpy.asfortranarray(g) if kind == 'gridF' else numpy.ascontiguousarray(g.T).T
+        return arg, (lambda r: numpy.asarray(r).reshape((-1, 3))), (k, n // k, 3)
     if kind == 'empty':
         return numpy.zeros((0, 3)), (lambda r: numpy.asarray(r).reshape((-1, 3))), (0, 3)
     return a.copy(), (lambda r: numpy.asarray(r).reshape((-1, 3))), (n, 3)
@@ -668,7 +675,9 @@ def run(tier):
             try:
                 for fn in (G.ecf_to_ned, G.ned_to_ecf, G.ecf_to_enu, G.enu_to_ecf):
                     one = numpy.array([fn(r, orp, absolute_coords=absolute) for r in rows])
-                    for arr in (rows, rows.reshape((n, 1, 3)), rows.reshape((1, n, 3))):
+                    k2 = 2 if n % 2 == 0 else 1
+                    for arr in (rows, rows.reshape((n, 1, 3)), rows.reshape((1, n, 3)), numpy.asfortranarray(rows.reshape((k2, n // k2, 3))),
+                                numpy.ascontiguousarray(rows.reshape((k2, n // k2, 3)).T).T):
                         keep = arr.copy()
                         out = fn(arr, list(orp) if gi % 2 else orp, absolute_coords=absolute)
                         if out.shape != arr.shape:
@@ -677,6 +686,23 @@ def run(tier):
                             fail('ordering-shape', f'{fn.__name__} on shape {arr.shape} differs from the row-by-row calls', case)
                         if not numpy.array_equal(keep, arr):
                             fail('mutates-input', f'{fn.__name__} modified its argument', case)
+                # one reference-point array re-used and updated in place between calls (a tracking loop does this): every call must use the
+                # reference point the array holds AT THAT CALL, i.e. equal the call with a fresh array of the same values
+                (la2, lo2, h2, orp2, *_r) = loc[rng.randrange(n_l)]
+                if not numpy.array_equal(orp, orp2):
+                    for fn in (G.ecf_to_ned, G.ned_to_ecf, G.ecf_to_enu, G.enu_to_ecf):
+                        o = numpy.array(orp, dtype='float64')
+                        first = fn(rows, o, absolute_coords=absolute)
+                        o[:] = orp2
+                        second = fn(rows, o, absolute_coords=absolute)
+                        fresh1 = fn(rows, numpy.array(orp, dtype='float64'), absolute_coords=absolute)
+                        fresh2 = fn(rows, numpy.array(orp2, dtype='float64'), absolute_coords=absolute)
+                        if not (numpy.array_equal(first, fresh1) and numpy.array_equal(second, fresh2)):
+                            fail('reference-history', f'{fn.__name__}: with one reference-point array updated in place between two calls ({orp.tolist()} then {orp2.tolist()}) '
+                                 f'the second call differs from a call with a fresh array of the same values by {float(numpy.abs(second - fresh2).max()):.3e}',
+                                 dict(case, orp2=hx(orp2)))
+                        if not numpy.array_equal(o, orp2):
+                            fail('mutates-input', f'{fn.__name__} modified the reference point', case)
             except Exception as ex:
                 fail('local-raises', f'batched local-frame conversion raised {type(ex).__name__}: {ex}', case)
         # the matrices from a given latitude / longitude: the model's matrix, applied like the code applies it, matches
